@@ -1,5 +1,6 @@
 """C07: iROAS summary is coherent with its incremental response and cost."""
 import json
+import os
 import math
 import numpy as np
 from scipy import stats
@@ -9,7 +10,7 @@ import engines.numeric as en
 PROP = 'C07'
 LEAN_TARGETS = ['MM.Props.C07C18', 'MM.Driver.Wire', 'MM.Model.Numeric']
 THEOREMS = ['MM.Numeric.' + n for n in (
-    'C07_fixed_columns', 'C07_fixed_order', 'C07_fixed_equivariant', 'C07_scenario', 'C07_fixed_order_bundle',
+    'C07_fixed_columns', 'C07_fixed_order', 'C07_fixed_equivariant', 'C07_scenario', 'C07_scenario_signed_sum_fails', 'C07_fixed_order_bundle',
     'quantile_nonpos', 'quantile_nonneg')]
 TRUSTED_BASE = [
     'Lean 4.33.0 kernel + Mathlib; axioms propext, Classical.choice, Quot.sound (audited per theorem)',
@@ -27,7 +28,7 @@ COLS = ['estimate', 'precision', 'lower', 'upper', 'probability', 'incremental_c
 def real_iroas(fr, use_cooldown, rows=None):
   from matched_markets.methodology import tbr_iroas
   m = tbr_iroas.TBRiROAS(use_cooldown=use_cooldown)
-  m.fit(en.to_df(fr, rows))
+  m.fit(en.to_df(fr, rows), **en.fit_kwargs(fr))
   return m
 
 
@@ -61,13 +62,21 @@ def check_frame(out, rng, fr, sess, pending):
   facts['scenario'] = scen
   # scenario label: fixed exactly when pre-period and control test-period costs are zero.  The statement does not say
   # whether pre-period costs of unassigned geos count (the code counts them): when the two readings differ either label is accepted.
+  # "Are zero" is judged cost by cost (a +5 and a -5 are two non-zero costs, not a zero one), on the per-date group totals the
+  # analysis works with and on the raw rows; when the readings differ either label is accepted.
   t_cost = en.totals(fr, col=5)
-  strict = sum(t_cost[0][0]) + sum(t_cost[0][1]) + sum(t_cost[1][0])
-  broad = strict + sum(r[5] for r in fr['rows'] if r[2] not in (1, 2) and r[3] == 0)
-  if (strict == 0) == (broad == 0):
+  strict = sum(abs(v) for v in t_cost[0][0] + t_cost[0][1] + t_cost[1][0])
+  rows_nz = any(r[5] != 0 for r in fr['rows'] if (r[2] in (1, 2) and r[3] == 0) or (r[2] == 1 and r[3] == 1))
+  per_date = {}
+  for r in fr['rows']:
+    if r[2] not in (1, 2) and r[3] == 0:
+      per_date[r[1]] = per_date.get(r[1], 0.0) + r[5]
+  broad = strict + sum(abs(v) for v in per_date.values())
+  if (strict == 0) == (broad == 0) == (not rows_nz):
     want_scen = 'fixed' if strict == 0 else 'variable'
     if scen != want_scen:
-      out.oracle_violation(dict(facts, symptom='scenario'), case, f'scenario label {scen}, but the non-incremental cost total is {strict}')
+      out.oracle_violation(dict(facts, symptom='scenario'), case,
+                           f'scenario label {scen}, but the absolute non-incremental costs (pre-period, control test period) total {strict}')
       return
   px, py, tx, ty = en.series(fr, use_cool)
   cond = en.conditioned(px, py)
@@ -163,10 +172,16 @@ def run(out, tier, model_ok=True):
   sess = en.ModelSession() if model_ok else None
   pending = []
   scen_hist = {}
+  cdir = os.path.join(core.VERIF, 'corpus', 'C07')
+  for fn in sorted(os.listdir(cdir)) if os.path.isdir(cdir) else []:      # past failures run first
+    with open(os.path.join(cdir, fn)) as f:
+      check_frame(out, rng, json.load(f)['frame'], sess, pending)
   for i in range(n):
-    fr = en.gen_frame(rng, cost_kind=(('variable_trt_pre' if i % 9 == 2 else 'variable') if i % 3 == 2 else ('fixed_cool' if i % 6 == 1 else ('fixed_negative' if i % 6 == 4 else 'fixed'))), cooldown=(rng.choice([1, 2, 4]) if i % 6 == 1 else None), n_pre=(rng.choice([4, 5, 6]) if i % 7 == 0 else None))
+    fr = en.gen_frame(rng, cost_kind=(('variable_trt_pre' if i % 9 == 2 else 'variable') if i % 3 == 2 else ('fixed_cool' if i % 6 == 1 else ('fixed_negative' if i % 6 == 4 else ('cancel_pre' if i % 12 == 3 else ('cancel_ctl_test' if i % 12 == 9 else 'fixed'))))), cooldown=(rng.choice([1, 2, 4]) if i % 6 == 1 else None), n_pre=(rng.choice([4, 5, 6]) if i % 7 == 0 else None))
     fr.update(use_cooldown=rng.random() < 0.6, level=rng.choice([0.9, 0.8, 0.95, 0.5, 0.3]), tails=rng.choice([1, 2]),
               thr=rng.choice([0.0, 0.0, 1.0, 2.5]), nsims=2000, random_state=rng.randint(0, 10 ** 6))
+    if i % 5 == 2:
+      fr['names'] = dict(en.CUSTOM_NAMES)      # caller-chosen column names
     scen_hist[fr['cost_kind']] = scen_hist.get(fr['cost_kind'], 0) + 1
     check_frame(out, rng, fr, sess, pending)
   if sess is not None and pending:
